@@ -125,16 +125,25 @@ func runC07(c *Ctx) {
 			return false
 		}
 		// g returns true only behind Protocol.Patches[i] == action
-		ok, _, n := c.Guard(g, nil, &GCheck{Name: "Protocol.Patches[i] == action", NoDescend: true, MatchCmp: func(c *Ctx, b *ssa.BinOp, env Env) (bool, bool) {
-			if b.Op != token.EQL && b.Op != token.NEQ {
+		isAct := func(s string) bool { return s == "$1" || (strings.HasPrefix(s, "conv<") && strings.HasSuffix(s, ">($1)")) }
+		isEl := func(s string) bool {
+			return s == "$0.Protocol.Patches[ι]" || (strings.HasPrefix(s, "conv<") && strings.HasSuffix(s, ">($0.Protocol.Patches[ι])"))
+		}
+		ok, _, n := c.Guard(g, nil, anyOf("action is an element of Protocol.Patches",
+			&GCheck{Name: "Protocol.Patches[i] == action", NoDescend: true, MatchCmp: func(c *Ctx, b *ssa.BinOp, env Env) (bool, bool) {
+				if b.Op != token.EQL && b.Op != token.NEQ {
+					return false, false
+				}
+				l, r := c.Path(b.X, env), c.Path(b.Y, env)
+				if (isEl(l) && isAct(r)) || (isEl(r) && isAct(l)) {
+					return true, b.Op == token.EQL
+				}
 				return false, false
-			}
-			l, r := c.Path(b.X, env), c.Path(b.Y, env)
-			if (l == "$0.Protocol.Patches[ι]" && r == "$1") || (r == "$0.Protocol.Patches[ι]" && l == "$1") {
-				return true, b.Op == token.EQL
-			}
-			return false, false
-		}}, nil)
+			}},
+			&GCheck{Name: "slices.Contains(Protocol.Patches, action)", NoDescend: true, MatchCall: func(c *Ctx, call *ssa.Call, env Env) bool {
+				h := call.Call.StaticCallee()
+				return h != nil && isSlicesContains(h) && len(call.Call.Args) == 2 && c.Path(call.Call.Args[0], env) == "$0.Protocol.Patches" && isAct(c.Path(call.Call.Args[1], env))
+			}}), nil)
 		return ok && n > 0
 	}})
 	c.CheckGuardLoop("C07.G1", "ValidateDelta:each-patch:patchvalidator", vd, nil, callTo("patchvalidator.Validate(patch)", pvValidate, pathIs(elem)))
@@ -548,8 +557,8 @@ func (c *Ctx) configSinks() {
 		// normalise: drop sinks that are pure pass-through of the whole value into comparisons after arithmetic (MaxOperationTimeDelta: from+Δ is then compared)
 		var g2 []string
 		for _, s := range got {
-			if f == "MaxOperationTimeDelta" && strings.HasPrefix(s, "cmp: ") {
-				continue // the sum from+Δ is compared with the anchoring time: decided by C09.O1
+			if f == "MaxOperationTimeDelta" && (strings.HasPrefix(s, "cmp: ") || s == "arg 1 of invoke.Validate") {
+				continue // the sum from+Δ is compared with the anchoring time / handed to the time validator as expiry: decided by C09.O1 and C09.G1
 			}
 			if _, isList := map[string]bool{"MultihashAlgorithms": true, "Patches": true, "SignatureAlgorithms": true, "KeyAlgorithms": true}[f]; isList && (s == "cmp: ι < cfg" || emptinessTest[s] || s == "range") {
 				continue // iteration bound / emptiness test of the list itself
